@@ -7,6 +7,7 @@ import (
 	"path/filepath"
 	"sort"
 	"strings"
+	"sync"
 
 	li "github.com/corazawaf/libinjection-go"
 
@@ -92,7 +93,7 @@ func c20() *core.Check {
 	return &core.Check{
 		ID:         "C20",
 		Exhaustive: true,
-		Rule: "all entries of the five live tables (read through the accessors after package initialisation) are checked against the well-formedness predicates; every entry of baseline/tables.json (snapshot of the pinned tree) must be present with the same classification; every baseline entry is additionally exercised through the real look-up path (isBlackTag / isBlackAttr per name, token class per keyword); the tables are digested again at a second quiescent point after ~30 000 calls over the corpus, every tag, event and keyword, and must be unchanged. Finite and enumerated completely. " +
+		Rule: "all entries of the five live tables (read through the accessors after package initialisation) are checked against the well-formedness predicates; every entry of baseline/tables.json (snapshot of the pinned tree) must be present with the same classification; every baseline entry is additionally exercised through the real look-up path (isBlackTag / isBlackAttr per name, token class per keyword, every multi-word key through the folder's merge in four probe frames); the tables are digested again at a second quiescent point after ~30 000 calls over the corpus, every tag, event and keyword, and must be unchanged. Finite and enumerated completely. " +
 			"Non-trivial = every table entry; distinct by table+key.",
 		Plan: func(tier string, seed uint64) []core.Unit { return []core.Unit{{Gen: "tables", Lo: 0, Hi: 1}} },
 		Gen: func(w *core.Worker, u core.Unit, emit func(core.Case)) {
@@ -338,16 +339,21 @@ func exerciseKeyword(k string, cls byte) string {
 		return ""
 	}
 	if strings.ContainsAny(k, " ") {
-		// phrase: merged by the folder from its two components
-		tr := li.VerifSQLFold(lower+" 1", li.VerifSQLFlagQuoteNone|li.VerifSQLFlagAnsi)
-		for _, t := range tr.Tokens {
-			if strings.EqualFold(t.Val, k) {
-				return ""
+		// phrase: merged by the folder from its components. It must come out as
+		// one token with the table's class in one of four frames, unless the
+		// pinned tree itself never produced it (baseline/phrases_unreachable.txt)
+		if phraseExempt()[k] {
+			return ""
+		}
+		for _, frame := range []string{"%s 1", "1 %s 1", "select %s x", "x %s y"} {
+			tr := li.VerifSQLFold(fmt.Sprintf(frame, lower), li.VerifSQLFlagQuoteNone|li.VerifSQLFlagAnsi)
+			for _, t := range tr.Tokens {
+				if strings.EqualFold(t.Val, k) && t.Category == cls {
+					return ""
+				}
 			}
 		}
-		// some phrases' components are not words of the right type on their
-		// own; they are reachable only in context. Not a violation.
-		return ""
+		return fmt.Sprintf("phrase %q (%q) is in the table but the folder no longer merges its words into one token of that class in any probe frame", k, cls)
 	}
 	tr := li.VerifSQLTokens(lower, li.VerifSQLFlagQuoteNone|li.VerifSQLFlagAnsi)
 	if len(tr.Tokens) == 1 && len(tr.Tokens[0].Val) == len(k) {
@@ -358,4 +364,24 @@ func exerciseKeyword(k string, cls byte) string {
 		}
 	}
 	return ""
+}
+
+var phraseExemptOnce sync.Once
+var phraseExemptSet map[string]bool
+
+func phraseExempt() map[string]bool {
+	phraseExemptOnce.Do(func() {
+		phraseExemptSet = map[string]bool{}
+		data, err := os.ReadFile(filepath.Join(verifDir(), "baseline", "phrases_unreachable.txt"))
+		if err != nil {
+			return
+		}
+		for _, l := range strings.Split(string(data), "\n") {
+			l = strings.TrimSpace(l)
+			if l != "" && !strings.HasPrefix(l, "#") {
+				phraseExemptSet[l] = true
+			}
+		}
+	})
+	return phraseExemptSet
 }
